@@ -68,6 +68,13 @@ def binop_src(op, node):
     return op.join((node.left.src, node.right.src))
 
 
+def operand_src(node):
+    # the operand of an attribute access, call or subscript must be a primary: parenthesize operators, conditionals and lambdas
+    if getattr(node, 'priority', 0) > 2:
+        return '(%s)' % node.src
+    return node.src
+
+
 def ast2src(tree):
     src = getattr(tree, 'src', None)
     if src is not None:
@@ -97,17 +104,21 @@ class PythonTranslator(ASTTranslator):
     def postGeneratorExp(translator, node):
         return '(' + node.elt.src + ' ' + ' '.join(gen.src for gen in node.generators) + ')'
     def postcomprehension(translator, node):
-        src = 'for %s in %s' % (node.target.src, node.iter.src)
+        def part_src(expr):  # conditional expressions and lambdas are not allowed here without parentheses
+            return '(%s)' % expr.src if getattr(expr, 'priority', 0) >= 15 else expr.src
+        src = 'for %s in %s' % (node.target.src, part_src(node.iter))
         if node.ifs:
-            ifs = ' '.join('if ' + if_.src for if_ in node.ifs)
+            ifs = ' '.join('if ' + part_src(if_) for if_ in node.ifs)
             src += ' ' + ifs
         return src
     def postGenExprIf(translator, node):
         return 'if %s' % node.test.src
     def postExpr(translator, node):
         return node.value.src
+    @priority(15)
     def postIfExp(translator, node):
         return '%s if %s else %s' % (node.body.src, node.test.src, node.orelse.src)
+    @priority(16)
     def postLambda(translator, node):
         return 'lambda %s: %s' % (node.args.src, node.body.src)
     def postarguments(translator, node):
@@ -206,19 +217,19 @@ class PythonTranslator(ASTTranslator):
         return '+' + node.operand.src
     @priority(4)
     def postInvert(translator, node):
-        return '~' + node.expr.src
+        return '~' + node.operand.src
     @priority(3)
     def postPow(translator, node):
         return binop_src(' ** ', node)
     def postAttribute(translator, node):
         node.priority = 2
-        return '.'.join((node.value.src, node.attr))
+        return '.'.join((operand_src(node.value), node.attr))
     def postCall(translator, node):
         node.priority = 2
-        if len(node.args) == 1 and isinstance(node.args[0], ast.GeneratorExp):
-            return node.func.src + node.args[0].src
+        if len(node.args) == 1 and isinstance(node.args[0], ast.GeneratorExp) and not node.keywords:
+            return operand_src(node.func) + node.args[0].src
         args = [ arg.src for arg in node.args ] + [ kw.src for kw in node.keywords ]
-        return '%s(%s)' % (node.func.src, ', '.join(args))
+        return '%s(%s)' % (operand_src(node.func), ', '.join(args))
     def postkeyword(translator, node):
         if node.arg is None:
             return '**' + node.value.src
@@ -230,13 +241,13 @@ class PythonTranslator(ASTTranslator):
         x = node.slice
         if isinstance(x, ast.Index):
             x = x.value
-        if isinstance(x, ast.Tuple):
+        if isinstance(x, ast.Tuple) and len(x.elts) != 1:
             key = ', '.join([elt.src for elt in x.elts])
         elif isinstance(x, ast.Constant) and isinstance(x.value, tuple):
             key = repr(x.value)[1:-1]
         else:
             key = x.src
-        return '%s[%s]' % (node.value.src, key)
+        return '%s[%s]' % (operand_src(node.value), key)
     def postIndex(translator, node):  # Python <= 3.7
         return node.value.src
     def postSlice(translator, node):
@@ -253,6 +264,8 @@ class PythonTranslator(ASTTranslator):
     def postConstant(translator, node):
         node.priority = 1
         value = node.value
+        if type(value) in (int, float) and value < 0:
+            node.priority = 4  # same as unary minus: -1 ** x, (-1).real
         if type(value) is float: # for Python < 2.7
             s = str(value)
             if float(s) == value: return s
@@ -286,22 +299,25 @@ class PythonTranslator(ASTTranslator):
         node.priority = 1
         return node.id
     def postJoinedStr(self, node):
+        return "f%r" % self.fstring_body(node)
+    def fstring_body(self, node):
         result = []
         for item in node.values:
             if isinstance(item, ast.Constant):
                 assert isinstance(item.value, str)
-                result.append(item.value)
+                result.append(item.value.replace('{', '{{').replace('}', '}}'))
             elif not PY38 and isinstance(item, ast.Str):  # Python 3.7
-                result.append(item.s)
+                result.append(item.s.replace('{', '{{').replace('}', '}}'))
             elif isinstance(item, ast.FormattedValue):
-                if item.conversion == -1:
-                    src = '{%s}' % item.value.src
-                else:
-                    src = '{%s!%s}' % (item.value.src, chr(item.conversion))
-                result.append(src)
+                src = item.value.src
+                if isinstance(item.value, ast.Lambda): src = '(%s)' % src
+                if src.startswith('{') or src.endswith('}'): src = ' %s ' % src  # not a doubled (literal) brace
+                if item.conversion != -1: src += '!' + chr(item.conversion)
+                if item.format_spec is not None: src += ':' + self.fstring_body(item.format_spec)
+                result.append('{%s}' % src)
             else:
                 assert False
-        return "f%r" % ''.join(result)
+        return ''.join(result)
     def postFormattedValue(self, node):
         return node.value.src
 
